@@ -18,7 +18,8 @@ def eqz(I, a, b):
 class ExpmModel(Ext):
     """scipy.linalg.expm on 3x3 matrices: uninterpreted result E constrained by
          det E = exp(tr A);  A symmetric => E symmetric positive definite;  A = 0 => E = 1;
-         expm(-A) @ expm(A) = 1   (for every earlier call with the negated argument)."""
+         expm(-A) @ expm(A) = 1   (for every earlier call with the negated argument);
+         equal arguments give equal results (for every earlier call)."""
     type_name = "scipy.linalg.expm"
 
     def __init__(self):
@@ -40,6 +41,8 @@ class ExpmModel(Ext):
         zero = z3.And([g(A, i, j) == 0 for i in range(3) for j in range(3)])
         I.path.assume(z3.Implies(zero, z3.And([g(E, i, j) == (1 if i == j else 0) for i in range(3) for j in range(3)])))
         for (A0, E0) in self.calls:
+            same = z3.And([g(A, i, j) == g(A0, i, j) for i in range(3) for j in range(3)])          # expm is a function
+            I.path.assume(z3.Implies(same, z3.And([g(E, i, j) == g(E0, i, j) for i in range(3) for j in range(3)])))
             neg = z3.And([g(A, i, j) == -g(A0, i, j) for i in range(3) for j in range(3)])
             P = ops.matmul(I, E, E0)
             I.path.assume(z3.Implies(neg, z3.And([to_z3(P.get((i, j)), "real") == (1 if i == j else 0) for i in range(3) for j in range(3)])))
